@@ -14,23 +14,25 @@ import (
 )
 
 type Obligation struct {
-	File      string // query file written by the solver stage
-	Name    string   `json:"name"`
-	Fn      string   `json:"fn"`
-	Kind    string   `json:"kind"`
-	Tags    []string `json:"tags,omitempty"`
-	Desc    string   `json:"desc,omitempty"`
-	Path    []string `json:"path,omitempty"`
-	Query   string   `json:"-"`
-	CETerms []ceTerm `json:"-"`
-	Result  string   `json:"result"` // unsat (discharged) | sat | unknown | timeout | error
-	Solver  string   `json:"solver,omitempty"`
-	TimeS   float64  `json:"time_s"`
-	Model   string   `json:"model,omitempty"`
-	Size    int      `json:"smt_bytes"`
-	Trivial bool     `json:"trivial,omitempty"`
-	Candidate bool   `json:"candidate_model,omitempty"`
-	CEValues map[string]string `json:"ce_values,omitempty"`
+	File       string // query file written by the solver stage
+	AnyTimeout bool   // some solver of the race ran into the time limit (more time may decide it)
+	Retried    bool
+	Name       string            `json:"name"`
+	Fn         string            `json:"fn"`
+	Kind       string            `json:"kind"`
+	Tags       []string          `json:"tags,omitempty"`
+	Desc       string            `json:"desc,omitempty"`
+	Path       []string          `json:"path,omitempty"`
+	Query      string            `json:"-"`
+	CETerms    []ceTerm          `json:"-"`
+	Result     string            `json:"result"` // unsat (discharged) | sat | unknown | timeout | error
+	Solver     string            `json:"solver,omitempty"`
+	TimeS      float64           `json:"time_s"`
+	Model      string            `json:"model,omitempty"`
+	Size       int               `json:"smt_bytes"`
+	Trivial    bool              `json:"trivial,omitempty"`
+	Candidate  bool              `json:"candidate_model,omitempty"`
+	CEValues   map[string]string `json:"ce_values,omitempty"`
 }
 
 type ceTerm struct {
@@ -44,37 +46,37 @@ type Gap struct {
 }
 
 type Exec struct {
-	L        *Loaded
-	db       *SpecDB
-	ctx      *SMTCtx
-	obls     []*Obligation
-	gaps     []Gap
-	trusted  map[string]int // assumed contracts actually used
-	unverif  map[string]int // callees without contract that were havoced
-	inlined  map[string]int
-	heapSort map[string]string
-	heapElem map[string]types.Type // element type of typed heaps (for typing invariants)
-	heapKey  map[string]string     // key sort of map-value heaps
-	cellSeq  int
-	frameSeq int
-	iterSeq  int
-	maxDepth int
-	maxSteps int
-	maxPaths int
-	paths    int
-	curFn    *ssa.Function
-	curCon   *Contract
-	curKey   string
-	curPkg   *ssa.Package
-	ordinals map[string]int // per function: kind -> counter per instruction
-	instrOrd map[ssa.Instruction]string
-	callCover map[string]bool // function|callee pairs that already have a call-site vacuity query
-	pathCap  bool
-	ghostTy  map[string]*STy
-	abstracted bool
-	mode     string // "full" | "sweep"
-	onlyTags map[string]bool
-	entryVars  map[string]Val
+	L           *Loaded
+	db          *SpecDB
+	ctx         *SMTCtx
+	obls        []*Obligation
+	gaps        []Gap
+	trusted     map[string]int // assumed contracts actually used
+	unverif     map[string]int // callees without contract that were havoced
+	inlined     map[string]int
+	heapSort    map[string]string
+	heapElem    map[string]types.Type // element type of typed heaps (for typing invariants)
+	heapKey     map[string]string     // key sort of map-value heaps
+	cellSeq     int
+	frameSeq    int
+	iterSeq     int
+	maxDepth    int
+	maxSteps    int
+	maxPaths    int
+	paths       int
+	curFn       *ssa.Function
+	curCon      *Contract
+	curKey      string
+	curPkg      *ssa.Package
+	ordinals    map[string]int // per function: kind -> counter per instruction
+	instrOrd    map[ssa.Instruction]string
+	callCover   map[string]bool // function|callee pairs that already have a call-site vacuity query
+	pathCap     bool
+	ghostTy     map[string]*STy
+	abstracted  bool
+	mode        string // "full" | "sweep"
+	onlyTags    map[string]bool
+	entryVars   map[string]Val
 	resultNames []string
 	unsupported []string
 	recs        map[string]*recInfo
@@ -323,8 +325,8 @@ func (x *Exec) alloc(st *State) string {
 // ---------------------------------------------------------------------------------------------
 // values
 
-func isStruct(t types.Type) bool { _, ok := t.Underlying().(*types.Struct); return ok }
-func isArray(t types.Type) bool  { _, ok := t.Underlying().(*types.Array); return ok }
+func isStruct(t types.Type) bool  { _, ok := t.Underlying().(*types.Struct); return ok }
+func isArray(t types.Type) bool   { _, ok := t.Underlying().(*types.Array); return ok }
 func isPointer(t types.Type) bool { _, ok := t.Underlying().(*types.Pointer); return ok }
 
 func (x *Exec) valFromTerm(term string, t types.Type) Val {
@@ -1215,7 +1217,6 @@ func (x *Exec) convertInt(st *State, term string, from, to types.Type) string {
 	}
 	return wrapUnsigned(term, tb)
 }
-
 
 // flattenAnd splits a term "(and a b (and c d))" into its conjuncts.
 func flattenAnd(t string) []string {
